@@ -48,8 +48,13 @@ def run_script(it, toks, stack, labels=None, pretty=0, ignore=0, module=None, fu
     return out
 
 
-def one(chk, tpls, what):
+def one(chk, tpls, what, reject_rule=None, site=None):
     good = [t for t in tpls if t.ok]
+    if reject_rule is not None and tpls and not good:
+        # every path ends in a translation error: a valid instruction is rejected
+        chk.fail(reject_rule, what + ':translates', 'the translator rejects the valid instruction script "%s" (all %d paths fail): %s'
+                 % (what, len(tpls), '; '.join(t.cond for t in tpls)[:200]), site or what)
+        return None
     if len(tpls) != 1 or len(good) != 1:
         raise AnalysisBroken('%s: %d paths, %d successful (%s)' % (what, len(tpls), len(good), '; '.join(t.cond for t in tpls)[:200]))
     return good[0]
